@@ -13,9 +13,10 @@ sys.path.insert(0, HERE)
 def load_checks():
     """Each tools/props/cNN.py that defines MANIFEST = dict(category, text, design, note, technique) is claimed."""
     res = {}
+    ready = set(open(os.path.join(HERE, "tools", "ready.txt")).read().split())
     pdir = os.path.join(HERE, "tools", "props")
     for f in sorted(os.listdir(pdir)):
-        if f.startswith("c") and f.endswith(".py"):
+        if f.startswith("c") and f.endswith(".py") and f[:-3].upper() in ready:
             mod = importlib.import_module("tools.props." + f[:-3])
             if getattr(mod, "MANIFEST", None):
                 res[f[:-3].upper()] = mod.MANIFEST
